@@ -175,6 +175,16 @@ pub fn run_world(
         match replay {
             None => {
                 while let Some(s) = gn.next(&mut w) {
+                    // scripted deliveries (queued ahead of time) obey the regime like replayed ones
+                    if let Op::Deliver { ev } = &s.op {
+                        let ok = match w.ev(*ev) {
+                            Some(pe) => s.node < w.nodes.len() && gn.deliverable(&w, s.node, pe),
+                            None => false,
+                        };
+                        if !ok {
+                            continue;
+                        }
+                    }
                     let rec = w.exec(&s);
                     steps.push(s);
                     oracle.after_step(&mut w, &rec);
